@@ -139,6 +139,27 @@ def _leaf(ann):
     return ann
 
 
+STREAM_ORIGINS = {"Iterable", "AsyncIterable", "Iterator", "AsyncIterator", "Generator", "AsyncGenerator"}
+
+
+def _shape(ann):
+    """names of the generic wrappers of an annotation, outermost first, following the same path as `_leaf`
+    (Optional/Union contribute nothing): Awaitable[AsyncIterable[X]] -> ["Awaitable", "AsyncIterable"],
+    Optional[Iterator[X]] -> ["Iterator"], Optional[Union[X, dict]] -> [], X -> []"""
+    import typing
+    out, seen = [], 0
+    while getattr(ann, "__args__", None) and seen < 6:
+        origin = typing.get_origin(ann)
+        if origin is not None and origin is not typing.Union and getattr(origin, "__name__", "") not in ("Union", "UnionType"):
+            out.append(getattr(origin, "__name__", repr(origin)))
+        args = [a for a in ann.__args__ if a is not type(None)]
+        if not args:
+            break
+        ann = args[0]
+        seen += 1
+    return out
+
+
 def _qual(x):
     if x is None or x is type(None) or x is inspect.Signature.empty:
         return None
@@ -174,6 +195,8 @@ def op_client_method_info(o):
             leaf = _leaf(sig.return_annotation)
             r["ret_leaf"] = _qual(leaf)
             r["ret_is_none"] = sig.return_annotation is None or sig.return_annotation is type(None)
+            r["ret_shape"] = _shape(sig.return_annotation)
+            r["ret_stream"] = any(w in STREAM_ORIGINS for w in r["ret_shape"])
         except BaseException as e:  # noqa
             r["sig_error"] = f"{type(e).__name__}: {e}"[:300]
             out.append(r)
@@ -191,16 +214,25 @@ def op_client_method_info(o):
                 r["result_leaf"] = None
                 r["result_error"] = f"{type(e).__name__}: {e}"[:300]
                 r["result_same"] = False
-        types_ok = {}
+        types_ok, types_same, shapes = {}, {}, {}
         for pn, pt in (it.get("param_types") or {}).items():
             inner = pt
             while "[" in inner and inner.endswith("]"):
                 inner = inner[inner.index("[") + 1:-1]
             try:
-                types_ok[pn] = inspect.isclass(_resolve_dotted(inner))
+                pobj = _resolve_dotted(inner)
+                types_ok[pn] = inspect.isclass(pobj)
             except BaseException as e:  # noqa
+                pobj = None
                 types_ok[pn] = False
+            # what the imported client's signature says about the same parameter
+            par = sig.parameters.get(pn)
+            if par is not None and par.annotation is not inspect.Signature.empty:
+                shapes[pn] = _shape(par.annotation)
+                types_same[pn] = pobj is not None and _leaf(par.annotation) is pobj
         r["param_types_ok"] = types_ok
+        r["param_types_same"] = types_same
+        r["param_shapes"] = shapes
         out.append(r)
     return {"items": out}
 
